@@ -218,7 +218,19 @@ def run(chk):
             for sc in scopes:
                 # the limit test may sit in an enclosing loop when the inner loop only processes one already-bounded chunk
                 checks += [r for r, cls in K.raises_in(sc) if any(l is sc for l in K.loop_ancestors(r)) and any(any(nm in lit.text for nm in limit_names) for lit in PC.units(PC.pc(r, stop=sc)))]
-            if checks:
+            weak = []
+            for r in checks:
+                sc_ = next((x for x in scopes if any(l is x for l in K.loop_ancestors(r))), loop)
+                for cl in PC.pc(r, stop=sc_):
+                    for l in cl:
+                        t = l.text
+                        if any(nm in t for nm in limit_names) or "max_size" in t or t in ("chunk", "field", "multipart.next()") or "read_chunk" in t or "is None" in t or "isinstance(" in t or "filename" in t or "content_type" in t or "_at_eof" in t or "decode" in t or t == "True":
+                            continue
+                        weak.append((r, l))
+            if checks and weak:
+                r, l = weak[0]
+                chk.violation("C09.limit", r, K.short(r), str(l), f"{q}: the size limit is enforced only under `{l}`: with the limit configured, some bodies (e.g. compressed ones framed by Content-Length) are accumulated without any bound")
+            elif checks:
                 chk.ok("C09.limit", loop, f"{q}: accumulation `{K.short(acc[0], 40)}` and the size limit test are in the same loop")
             else:
                 # decoded form-data (no compression) is bounded by the raw size already checked
